@@ -208,7 +208,7 @@ func checkC12(c *Ctx) {
 		size    int
 	}
 	combos := []combo{
-		{"stl", "uniform", 12}, {"stl", "octree", 12}, {"stl", "scripted", 5000}, {"stl", "scripted", 1}, {"stl", "scripted", 300},
+		{"stl", "uniform", 12}, {"stl", "octree", 12}, {"stl", "scripted", 5000}, {"stl", "scripted", 1}, {"stl", "scripted", 300}, {"stl", "scripted", 40000},
 		{"3mf", "uniform", 10}, {"3mf", "scripted", 600},
 		{"dxf", "uniform", 20}, {"dxf", "quadtree", 20}, {"dxf", "scripted", 600},
 		{"svg", "uniform", 20}, {"svg", "quadtree", 20}, {"svg", "scripted", 600},
@@ -259,6 +259,11 @@ func checkC12(c *Ctx) {
 			r := c.Rng("limits", ci)
 			for k := 0; k < 60; k++ {
 				lims[int64(r.I(int(full)+1))] = true
+			}
+		}
+		if cb.size == 40000 { // large mesh: a limit inside every 2 KiB stretch of the file (periodic work of the writer)
+			for n := int64(1); n < full; n += 2048 {
+				lims[n] = true
 			}
 		}
 		if cb.sink != "stl" && c.Quick { // the other sinks write at the end: a few limits suffice in the quick tier
